@@ -6,6 +6,8 @@
       (Cpp.encodePtr t x e).length = Cpp.getByteSize t x
 -/
 import ProphyModel.Cpp
+import ProphyModel.Lemmas.CppEncode
+import ProphyModel.Lemmas.NoShift
 namespace Prophy.C05
 open Prophy Prophy.Cpp
 
@@ -56,5 +58,20 @@ theorem C05_nearest_ge (n : Nat) (x : Int) (hn : 0 < n) : x ≤ nearest n x ∧ 
       omega
     omega
   · exact Int.dvd_mul_left _ _
+
+
+/-- FULL STATEMENT: `get_byte_size()` is the length of the canonical encoding, which is what the
+    pointer encoder writes and the length of the vector `encode()` returns; nothing is written
+    beyond it (`encodeVec` is `.ok`, never `.fault`) -/
+theorem C05_byte_size_is_canonical_length (t : Ty) (v : Val) (e : Endian)
+    (hf : Accept.front t = true) (hns : Accept.noShift t = true) (hm : Cpp.optMisaligned t = false)
+    (hv : hasType t v = true) (ha : WF.agreeTy t v = true)
+    (hlen : (Spec.enc t v e).length < 2 ^ 64) :
+    getByteSize t v = (Spec.enc t v e).length ∧ encodeVec t v e = .ok (Spec.enc t v e) ∧ encodeVec t v e ≠ .fault := by
+  have hp := Accept.pyRt_of_front t hf hns
+  have hns' : Cpp.noShift_cppenc t = true := by rw [Cpp.noShift_cppenc_eq_accept]; exact hns
+  have h := Cpp.encodeVec_canonical t v e hf hp hm hns' hv ha hlen
+  refine ⟨Cpp.getByteSize_spec t v e hf hp hm hns' hv ha hlen, h, ?_⟩
+  rw [h]; intro c; cases c
 
 end Prophy.C05
